@@ -261,6 +261,64 @@ func TestVerifC01(t *testing.T) {
 				o.verdict("C01", in.id, w == "", k > 1, in.id, map[string]interface{}{"what": w, "threshold": th, "input_hex": vclip(hx(in.data))})
 				n++
 			}
+			// a small document S, a large one B, and a third that is "S followed by B" with part of B
+			// rewritten: its approximate match spans both copies, outweighs S and is itself outweighed
+			// by B — what a rejected candidate proposed must not take effect
+			{
+				sw := func(p string, n int) []string {
+					var ws []string
+					for k := 0; k < n; k++ {
+						ws = append(ws, p+string(rune('a'+k/26%26))+string(rune('a'+k%26)))
+					}
+					return ws
+				}
+				wrap := func(ws []string) []byte {
+					var sb strings.Builder
+					for k, w := range ws {
+						sb.WriteString(w)
+						if k%10 == 9 {
+							sb.WriteByte('\n')
+						} else {
+							sb.WriteByte(' ')
+						}
+					}
+					return []byte(strings.TrimRight(sb.String(), " ") + "\n")
+				}
+				S, B := sw("sml", 20), sw("big", 200)
+				C := append(append([]string(nil), S...), B...)
+				for k := 0; k < 30; k++ { // one contiguous stretch of the B part
+					C[20+85+k] = "chg" + string(rune('a'+k/26)) + string(rune('a'+k%26))
+				}
+				dS := vdoc{"License", "Small-Doc", "license.txt", wrap(S)}
+				dB := vdoc{"License", "Big-Doc", "license.txt", wrap(B)}
+				c2.AddContent(dS.cat, dS.name, dS.variant, dS.data)
+				c2.AddContent(dB.cat, dB.name, dB.variant, dB.data)
+				c2.AddContent("License", "Small-Then-Big", "license.txt", wrap(C))
+				for oi, sel := range [][]vdoc{{dS, dB}, {dB, dS}} {
+					// one short unrelated line between the copies (a longer gap would push the composite
+					// document's approximate match below the threshold)
+					var sbuf bytes.Buffer
+					var pls []vplant
+					sbuf.WriteString("zyxqv qwrtzp\n")
+					for _, d := range sel {
+						st := sbuf.Len()
+						sbuf.Write(d.data)
+						pls = append(pls, vplant{d, st, sbuf.Len()})
+						sbuf.WriteString("blorfen xkcdq\n")
+					}
+					in := vinput{id: fmt.Sprintf("sb%d", oi), data: sbuf.Bytes(), plants: pls}
+					var res Results
+					pan, msg := catch(func() { res = c2.Match(in.data) })
+					if pan {
+						o.verdict("C01", in.id, false, true, in.id, map[string]interface{}{"what": "panic " + msg, "threshold": th})
+						continue
+					}
+					w, k := voracleC01(c2, in, res)
+					nchecked += k
+					vc01Verdict(o, c2, c01Keys, in.id, in.id, w, k > 1, in, res, map[string]interface{}{"what": w, "threshold": th, "input_hex": vclip(hx(in.data))})
+					n++
+				}
+			}
 			c = c2
 		}
 		docs := vpick(r.fork(uint64(ti)), nDocs)
@@ -632,6 +690,29 @@ func TestVerifC04(t *testing.T) {
 			o.verdict("C04", id, what == "", true, id, map[string]interface{}{"what": vclip(what), "probe": string(probe)})
 			n++
 		}
+	}
+	// one-word inputs that live inside a larger array: whatever the call returns, the caller's bytes —
+	// the input itself and what follows it in the same array — stay as they were
+	for wi, w := range []string{"   License  ", "(Beerware", "don't", "   \n", "MIT", "Copyright 2020 Foo", "a-\nb", "&amp;x"} {
+		backing := []byte(w + "|rest of the caller's buffer")
+		in := backing[:len(w)]
+		before := string(backing)
+		what := ""
+		for ci, call := range []func(){
+			func() { c.Normalize(in) },
+			func() { c.Match(in) },
+			func() { c.MatchFrom(bytes.NewReader(in)) },
+			func() { NewClassifier(0.8).AddContent("License", "X", "y", in) },
+			func() { out := c.Normalize(in); _ = append(out, 'z') }, // and the caller may append to what it got back
+		} {
+			call()
+			if string(backing) != before && what == "" {
+				what = fmt.Sprintf("call %d changed the caller's bytes: %q -> %q", ci, before, string(backing))
+			}
+		}
+		id := fmt.Sprintf("alias%d", wi)
+		o.verdict("C04", id, what == "", true, id, map[string]interface{}{"what": what, "input": w})
+		n++
 	}
 	// AddContent must not modify its argument
 	b := []byte("Some License text HERE\nwith — dashes and &amp; entities\n")
@@ -1016,6 +1097,11 @@ func vmetaInputs(r *vrand, n int) []vinput {
 			data = append([]byte("Copyright 2020 Example Holder\nthis file carries certain modifi-\ncations\n"), data...)
 			out = append(out, vinput{id: fmt.Sprintf("xh%d", i), data: data})
 		}
+	}
+	// notice lines that are notices only thanks to a short prefix, the prefix holding an in-word quote
+	for i, d := range vnamed("License/MIT/a.txt", "License/ISC/license.txt") {
+		pre := []string{"It's Copyright 2020 Example Corp.\n", "\"A's\" Copyright 2011 Somebody\nO'R Copyright (c) 1999, X Y\n"}[i]
+		out = append(out, vinput{id: fmt.Sprintf("xn%d", i), data: append([]byte(pre), d.data...)})
 	}
 	// a text of many read chunks (the tokenizer reads 1 KiB at a time)
 	for _, d := range vnamed("License/GPL-2.0/a.txt") {
@@ -1494,6 +1580,37 @@ func TestVerifC07(t *testing.T) {
 			}
 		}
 	}
+	// a document dense in two-byte letters, embedded behind prefixes of 0..47 bytes: wherever the
+	// tokenizer's read chunks end, the words come out the same
+	{
+		ca := NewClassifier(0.8)
+		var ws []string
+		for k := 0; k < 700; k++ {
+			ws = append(ws, "r\u00e9dig"+string(rune('a'+k/26%26))+"\u00e9"+string(rune('a'+k%26))+"s")
+			if k%9 == 8 {
+				ws[len(ws)-1] += "\n"
+			}
+		}
+		text := strings.ReplaceAll(strings.Join(ws, " "), "\n ", "\n") + "\n"
+		ca.AddContent("License", "Accented", "a.txt", []byte(text))
+		X := []byte(text)
+		base := ca.Match(X)
+		for pl := 0; pl < 48; pl++ {
+			pre := strings.Repeat("z", pl)
+			if pl > 0 {
+				pre = pre[:pl-1] + "\n"
+			}
+			data := append([]byte(pre), X...)
+			got := ca.Match(data)
+			dt := len(ca.createTargetIndexedDocument([]byte(pre)).Tokens)
+			what := ""
+			if vshift(base, strings.Count(pre, "\n"), dt) != vshift(got, 0, 0) {
+				what = fmt.Sprintf("X alone: %s ; behind a prefix of %d bytes: %s", vshift(base, strings.Count(pre, "\n"), dt), pl, vshift(got, 0, 0))
+			}
+			o.verdict("C07", fmt.Sprintf("accent_%d", pl), what == "", len(base.Matches) > 0, fmt.Sprintf("accent:%d", pl), map[string]interface{}{"what": vclip(what), "prefix_bytes": pl})
+			cnt++
+		}
+	}
 	o.stat("C07", map[string]interface{}{"comparisons": cnt})
 }
 
@@ -1770,6 +1887,9 @@ func TestVerifC09(t *testing.T) {
 	defer o.close()
 	r := newVrand(vseed() + 81)
 	c := vclassifier(0.8)
+	// documents without words are part of a corpus too (a file that holds a copyright line only)
+	c.AddContent("License", "Wordless", "w.txt", []byte("--- ***\n"))
+	c.AddContent("License", "NoticeOnly", "n.txt", []byte("Copyright 2019 Example Corp.\n"))
 	nIn, G := 12, 8
 	if vthorough() {
 		nIn, G = 80, 64
@@ -1831,6 +1951,7 @@ func TestVerifC09(t *testing.T) {
 		{TraceLicenses: "License/MIT*,Header/*,License/ISC/license.txt", TracePhases: "", Tracer: func(string, ...interface{}) {}},
 		{TraceLicenses: "*", TracePhases: "*", Tracer: func(string, ...interface{}) {}}} {
 		ct := vclassifier(0.8)
+		ct.AddContent("License", "Wordless", "w.txt", []byte("--- ***\n"))
 		ct.SetTraceConfiguration(tcfg)
 		tsnap0 := vsnapshot(ct)
 		tbad := ""
@@ -1999,6 +2120,15 @@ func TestVerifC10(t *testing.T) {
 			limit = 120 * time.Second
 		}
 	}
+	// a storm of words joined across hyphenated line breaks that each end at a newline, then blank lines:
+	// line bookkeeping must stay linear (milliseconds); a counter that is added again and again makes
+	// Normalize write quadratically many line breaks
+	{
+		storm := strings.Repeat("a-\nb\n", 20000) + strings.Repeat("\n", 20000)
+		limit = 4 * time.Second // a few hundredths of a second when the bookkeeping is linear
+		run("small0.8", small(0.8), vinput{id: "hyphen-newline-storm", data: []byte(storm)})
+		limit = 120 * time.Second
+	}
 	// a very long line that reaches the word diff against an equally long user document and differs from
 	// it in every second word: the diff library is only bounded by its own 1 s deadline (a crude script
 	// after that), so Match returns within seconds; without that bound the diff is quadratic (minutes)
@@ -2103,6 +2233,17 @@ func TestVerifC11(t *testing.T) {
 			return l
 		})
 		inputs = append(inputs, vinput{id: fmt.Sprintf("ucmark%d", i), data: t})
+	}
+	// notice lines whose short prefix gets shorter when cleaned ("(c) Copyright …" -> "c Copyright …")
+	for i, d := range vnamed("License/MIT/a.txt", "License/Autodesk-3D-Studio-File-Toolkit/license.txt", "License/ISC/license.txt") {
+		t := d.data
+		if i != 1 {
+			ls := strings.Split(string(d.data), "\n")
+			mid := len(ls) / 2
+			ls = append(append(append([]string{"(c) Copyright 2019 Example Corp."}, ls[:mid]...), "(ii) Copyright 2020 Another Holder", "(a) Copyright (c) 1988 Third Party"), ls[mid:]...)
+			t = []byte(strings.Join(ls, "\n"))
+		}
+		inputs = append(inputs, vinput{id: fmt.Sprintf("shortprefix%d", i), data: t})
 	}
 	// the same marker-like word capitalised and in lower case, at a line start and inside running text
 	// ("B. …" paragraphs and "see b. below"; MPL-1.1's "a." sub-clauses and "Exhibit A."): what is
@@ -2313,6 +2454,19 @@ func TestVerifC12(t *testing.T) {
 			os.WriteFile(p, data, 0o644)
 		}
 		os.MkdirAll(dir, 0o755)
+		// a corpus file that is a symbolic link to a text kept elsewhere (one license text under a
+		// second name): it is a file of the tree like any other
+		if ti%2 == 1 || ti == 0 {
+			d := vcorpus[rr.intn(len(vcorpus))]
+			target := filepath.Join(root, fmt.Sprintf("linked%d.txt", ti))
+			os.WriteFile(target, d.data, 0o644)
+			rel := filepath.Join("License", fmt.Sprintf("Alias-%d", ti), "license.txt")
+			p := filepath.Join(dir, rel)
+			os.MkdirAll(filepath.Dir(p), 0o755)
+			if err := os.Symlink(target, p); err == nil {
+				files = append(files, file{rel, d.data})
+			}
+		}
 		onlyDepth3 := true
 		want := NewClassifier(0.8)
 		for _, f := range files {
